@@ -116,7 +116,7 @@ theorem sep_shift {l r0 : Bag} (hl : l.WF) (hr : r0.WF) : Sep l (r0.shift l.next
     simp
   le := by simp
 
-theorem den_shift {n : BNode} {t : BTerm} (h : Den b n t) : Den (b.shift k) (n.shift k) t := by
+theorem den_shift {n : BNode} {t : BTerm} (h : BDen b n t) : BDen (b.shift k) (n.shift k) t := by
   induction h with
   | @input n hi => exact .input (mem_map_shift.2 hi)
   | @missing n hni hno =>
@@ -136,7 +136,7 @@ theorem den_shift {n : BNode} {t : BTerm} (h : Den b n t) : Den (b.shift k) (n.s
     obtain ⟨p, hp, rfl⟩ := hq
     exact ih p hp
 
-theorem den_unshift {m : BNode} {t : BTerm} (h : Den (b.shift k) m t) : ∀ n, m = n.shift k → Den b n t := by
+theorem den_unshift {m : BNode} {t : BTerm} (h : BDen (b.shift k) m t) : ∀ n, m = n.shift k → BDen b n t := by
   induction h with
   | @input m hi =>
     rintro n rfl
